@@ -167,6 +167,12 @@ theorem handle_response_step_order :
       ["from_pdu", "get:correlator", "put_delivery", "get_segmented"] := by
   decide
 
+/-- TIE TO THE SOURCE (regenerated on every run, Gen/Site.lean): `_send_data` draws the sequence number, builds and announces the PDU, writes it, drains, and only then stores the request: a request whose transmission failed is never outstanding -/
+theorem send_data_step_order :
+    Gen.Site.sendData.filter (fun x => x ∈ ["next_sequence", "sending", "write", "drain", "put"]) =
+      ["next_sequence", "sending", "write", "drain", "put"] := by
+  decide
+
 end SmppVerif.Props.C13
 
 #print axioms SmppVerif.Props.C13.esme_generator_ok
@@ -185,3 +191,4 @@ end SmppVerif.Props.C13
 #print axioms SmppVerif.Props.C13.sender_sequence_numbers_distinct
 #print axioms SmppVerif.Props.C13.correlator_step_order
 #print axioms SmppVerif.Props.C13.handle_response_step_order
+#print axioms SmppVerif.Props.C13.send_data_step_order
